@@ -179,7 +179,7 @@ def RDir.advance (d : RDir) (p : Pkt) (decl : Option Decl) : RDir :=
     if !d2.specified then d2 else
     match d2.base, decl with
     | some b, some dc =>
-      let o := sdiff32 p.seq (dc.isn + 1)
+      let o := sdiff32 p.dataSeq (dc.isn + 1)      -- a SYN occupies one sequence number
       let bo := sdiff32 b (dc.isn + 1)
       if consistentAt dc.data o pl 0 && decide (0 ≤ bo) && decide (bo ≤ (dc.data.length : Int))
          && decide (o + (pl.length : Int) ≤ (dc.data.length : Int)) then
@@ -266,7 +266,7 @@ def Oracle.packet (o : Oracle) (p : Pkt) (evs : List ObsEv) (st : Option ObsStat
     | none =>
       if create then
         some { v6 := p.v6, cl := src, sv := dst, lastSeen := p.ts,
-               c2s := if isSyn then {} else { base := some p.seq },
+               c2s := if isSyn then {} else { base := some p.dataSeq },
                s2c := if isSyn then {} else { base := some p.ack } }
       else none
   let rest := main.filter (fun e => match e with | .new _ _ => false | _ => true)
